@@ -82,6 +82,15 @@ func dnskeyMaterialFP(k *dns.DNSKEY) string {
 	return fmt.Sprintf("%d|%d|%s", k.Algorithm, k.Protocol, k.PublicKey)
 }
 
+// dnskeyPresenceKey identifies one published DNSKEY — material and flags —
+// for the "is this tracked key in the fetched RRset" test.
+func dnskeyPresenceKey(k *dns.DNSKEY) string {
+	if k == nil {
+		return ""
+	}
+	return fmt.Sprintf("%s|%d", dnskeyMaterialFP(k), k.Flags)
+}
+
 func (s State) String() string {
 	switch s {
 	case StateStart:
@@ -335,6 +344,11 @@ func (r *Resolver) AutoTA() {
 	}
 
 	kskFetched := make(TrustAnchors)
+	// kskFetched is keyed by tag, so two published keys with one tag leave
+	// a single entry. Presence of a tracked key in the RRset is a question
+	// about that key, not about its tag: record every published KSK by
+	// material and flags as well.
+	fetchedKeys := make(map[string]bool)
 
 	for _, rr := range resp.Answer {
 		if dnskey, ok := rr.(*dns.DNSKEY); ok {
@@ -346,6 +360,7 @@ func (r *Resolver) AutoTA() {
 				}
 
 				kskFetched[keyTag] = ta
+				fetchedKeys[dnskeyPresenceKey(dnskey)] = true
 			}
 		}
 	}
@@ -468,7 +483,11 @@ func (r *Resolver) AutoTA() {
 	// keys or to adjacent state changes.
 	if !revocationOnly {
 		for tag, ta := range kskCurrent {
-			if kskFetched[tag] == nil {
+			// A different key that merely shares the tag does not keep this
+			// one "still published": a pending key withdrawn behind such a
+			// key would otherwise finish its add hold-down and become a
+			// trust anchor without having been present.
+			if !fetchedKeys[dnskeyPresenceKey(ta.DNSKey)] {
 				// RFC 5011 §4 state table: the KeyRem event's effect
 				// depends on the prior state.
 				switch ta.State {
